@@ -336,7 +336,8 @@ func runC17(c *Ctx) {
 	}
 	// a well-formed record is skipped or stored, never refused: each error return of the answer decoder lies under a test
 	// that witnesses a malformation (name decode failed, record runs past the message, RDATA length of an address record
-	// wrong, an in-addr.arpa owner that is not an address). Anything else fails a whole well-formed message.
+	// wrong). Anything else fails a whole well-formed message: a PTR owner under in-addr.arpa need not be a reversed
+	// address (RFC 6763 section 11: lb._dns-sd._udp.0.0.168.192.in-addr.arpa; RFC 2317 classless delegations).
 	r.Rule("refusals", "every error return of the answer decoder is under a malformation test", 7)
 	if fn := c.P.Method("", "DNSEntry", "decodeRRs"); fn != nil {
 		kg := core.NewKeyGen()
@@ -357,8 +358,6 @@ func runC17(c *Ctx) {
 				why = "record runs past the message"
 			case hasGuard(gs, `^!\(\(encoding/binary\.bigEndian\)\.Uint16\(.*\)==(4|16)\)$`):
 				why = "address record with a wrong RDATA length"
-			case hasGuard(gs, `^\(net\.ParseIP\(.*\)==nil\)$`) && hasGuard(gs, `^strings\.HasSuffix\(.*,"\.in-addr\.arpa"\)$`):
-				why = "in-addr.arpa owner that is not an address"
 			}
 			st := core.Proved
 			if why == "" {
